@@ -502,7 +502,7 @@ def run(ctx):
     rnd = random.Random(ctx.seed)
     jobs = [(mdir, b[0]['cfg']['id'], [s['act'] for s in b], rnd.random() < 0.3) for b in behs + behs2 + behs3]
     jobs += [(mdir, cid, sch, False) for cids, sch in handmade() for cid in cids]
-    traces = harness.pmap(exec_schedule, jobs, chunk=8)
+    traces = harness.pmap(exec_schedule, jobs, chunk=8, item_timeout=90)
     ctx.log('api schedules executed: %d' % len(traces))
     repo = os.environ.get('VERIF_REPO', '/repo')
     fuzz_jobs = [(repo + '/mpf/tests/machine_files/' + d, f, ctx.seed * 100 + k)
